@@ -452,7 +452,8 @@ func (CrashScenario) Execute(sim *sched.Sim, ci interface{}, prop string, race b
 			}
 		}
 	})
-	for i := 0; i < 20000; i++ {
+	for i := 0; ; i++ {
+		stepBound(i, 1000000, "crash workload")
 		sim.Wait()
 		if restartReq {
 			// dirty restart: continue on an image of the database, taken
